@@ -337,9 +337,9 @@ fn sparse_poly<F: ark_ff::PrimeField>(seed: u64, d: usize) -> UP<F> {
     UP::<F>::from_coefficients_vec(c)
 }
 
-pub const ITEMS: [&str; 26] = [
+pub const ITEMS: [&str; 28] = [
     "MAR", "SON", "IPA", "PST", "HYR", "LIG", "MLL", "BRK", "KZG", "MLP", "STR", "MAR-odd", "SON-odd", "IPA-odd", "PST-odd", "HYR-odd", "LIG-odd", "MLL-odd", "BRK-odd", "KZG-odd", "MLP-odd",
-    "STR-odd", "KZGB", "KZGB-odd", "SCP", "SCP-odd",
+    "STR-odd", "KZGB", "KZGB-odd", "SCP", "SCP-odd", "LIG-big", "MLL-big",
 ];
 
 pub fn run_item(item: &str, seed: u64) -> Result<Outputs, String> {
@@ -359,6 +359,10 @@ pub fn run_item(item: &str, seed: u64) -> Result<Outputs, String> {
         "IPA-odd" => flow::<SIpa>(&KeyCfg::uni(7, 5, 1, None), seed, Some(sparse_poly::<FrJ>(seed, 7))),
         "PST-odd" => flow::<SPst>(&KeyCfg::mv(2, 5, 5), seed, None),
         "HYR-odd" => flow::<SHyr>(&KeyCfg::ml(4), seed, None),
+        // large coefficient matrices (4096 coefficients: 8 x 512 with the default parameters): matrix shapes, row encodings
+        // and column hashing of the linear codes at a size where per-thread work splitting becomes possible
+        "LIG-big" => flow::<SLig>(&KeyCfg::uni(4096, 4096, 1, None), seed, Some(UP::<Fr381>::from_coefficients_vec(rho_stream::<Fr381>(seed, 9, 4096)))),
+        "MLL-big" => flow::<SMll>(&KeyCfg::ml(12), seed, None),
         "LIG-odd" => flow::<SLig>(&KeyCfg::uni(37, 37, 1, None), seed, Some(UP::<Fr381>::from_coefficients_vec(rho_stream::<Fr381>(seed, 9, 23)))),
         "MLL-odd" => flow::<SMll>(&KeyCfg::ml(5), seed, None),
         "BRK-odd" => flow::<SBrk>(&KeyCfg::ml(7), seed, None),
